@@ -1,6 +1,6 @@
 /* c06_driver -- histories of start / add taskpool / wait / test over ONE parsec context (property C06).
  *
- *   c06_driver <histories.txt> <out.log> <threads> <tq_seconds>
+ *   c06_driver <histories.txt> <out.log> <threads> <tq_seconds> [warmup=1]
  *
  * History text (integers):
  *   H hid
@@ -287,6 +287,12 @@ int main(int argc, char **argv)
     g_dc = (parsec_data_collection_t *)m;
     pthread_t wd;
     pthread_create(&wd, NULL, watchdog, NULL);
+    if (argc < 6 || atoi(argv[5]) != 0) {
+        /* known finding (corpus/C06/regress/wait_before_first_context_wait.txt): parsec_taskpool_wait / _test crash when
+         * they run before the first parsec_context_wait of the process; one empty epoch first avoids it (warmup=0 disables) */
+        parsec_context_start(g_ctx);
+        parsec_context_wait(g_ctx);
+    }
     while (run_history()) ;
     fprintf(g_log, "Q\n");
     fclose(g_log);
